@@ -179,6 +179,22 @@ def check(R):
     # ---- d --------------------------------------------------------------------
     with R.clause('d'):
         dup_fabric_rule(R)
+        # "the leaf carries ... the fabric identifier of the fabric it is used for": in CaseP::validate_certs every path to Ok passes the
+        # equality of the fabric's id with an id that get_fabric_id() actually returned (a leaf without a fabric id cannot skip the test)
+        vc = R.body('sc::case::casep::CaseP::validate_certs')
+        oks_vc = ok_return_bbs(vc)
+        R.floor('Ok returns of CaseP::validate_certs', len(oks_vc), 1)
+
+        def fid_eq():
+            e = set()
+            for (bb, neg, sa_, sb_, te, fe) in equality_tests(F, vc):
+                if 'fabric::Fabric::fabric_id' in src_calls(sa_ | sb_) and 'cert::CertRef::get_fabric_id' in src_calls(sa_ | sb_):
+                    e |= te
+            if not e:
+                from facts import GuardMissing
+                raise GuardMissing(f'{vc.fn}: no comparison of Fabric::fabric_id() with CertRef::get_fabric_id()')
+            return e
+        R.cut('P2', vc, 'accept the chain (return Ok)', oks_vc, 'the fabric id the certificate carries equals the fabric\'s (mandatory: no path around the comparison)', fid_eq)
 
     # ---- e --------------------------------------------------------------------
     with R.clause('e'):
